@@ -420,9 +420,10 @@ def check_c02(model, rep, tier):
     # depend on set iteration order; "no image gained or lost ... the same image object filed under several cells": what add()
     # files is the image it was given
     from .canonical import r_cell_order
-    from .sources import r_add_insertion, r_identity_hash
+    from .sources import r_add_insertion, r_identity_hash, r_fresh_enforces
     r_cell_order(model, rep)
     r_add_insertion(model, rep)
+    r_fresh_enforces(model, rep, tier)     # "every image the library agrees to write is read back": what add() accepts on a new manifest loads again
     r_identity_hash(model, rep)      # cells are sets of Image objects: value-based equality would merge distinct images
     r_no_hidden_state(model, rep, ["images.Images"])
     r_io_chain(model, rep)
